@@ -485,6 +485,7 @@ func (node *Node) Run(ctx context.Context) error {
 		node.stopping = false
 		node.lock.Unlock()
 		node.state.Reset()
+		node.txTracker.Start() // it was stopped for the shut down of the previous connection
 	}
 
 	node.lock.Lock()
